@@ -6,7 +6,9 @@ open Proto Weights
 /-  requests (`q` = exact rationals `num/den`, otherwise floats as IEEE bit patterns):
       fjq   <K> <W q-list> <Y flat q-list>               -> none | f_j q-list
       rwq   <E> <ak q-list> <R flat (K x E) q-list>      -> code:<R_i q-list> spec:<R_i q-list | none when A = 0>
-      row   <sizes> <W> <Y row>                          -> a_jk row computed group slice by group slice
+      rsq   <nSel> <ak q-list> <src idx> <evt idx> <flat values q-list>
+            -> sparse:<R_i q-list> dense:<R_i q-list>     the scatter-add as coded on the real index arrays / the dense form
+      row   <sizes> <W> <Y row>                          -> a_jk row group slice by group slice (running index), the same with sliceBounds, and W*Y
       wsob  <opa> <ns> <zb> <N> <nSel> <ak> <s values> <src idx> <evt idx> <b per selected event> <r2 values | ->
             -> none | <log Λ> <sum |terms|>      SourceWeighted(SigOverBkg [x ratio]) on the flat values array
       hist  <opa> <K> <W0> <J> {<N_j> <E_j> <R_j flat>} {A <Y flat> | F | E <ns> | W <weights> | C}
@@ -21,12 +23,6 @@ def chunk {α} (n : Nat) (xs : List α) : List (List α) :=
     | 0 => []
     | fuel + 1 => if ys.isEmpty then [] else ys.take n :: go fuel (ys.drop n)
   go xs.length xs
-
-/-- split `xs` into consecutive pieces of the given sizes -/
-def splitSizes {α} (sizes : List Nat) (xs : List α) : List (List α) :=
-  match sizes with
-  | [] => []
-  | n :: rest => xs.take n :: splitSizes rest (xs.drop n)
 
 def rowsOf {α} (K : Nat) (nRows : Nat) (xs : List α) : List (List α) :=
   (List.range nRows).map (fun r => (xs.drop (r * K)).take K)
@@ -74,12 +70,20 @@ def answer (line : String) : String :=
       let code := ratioWeighted a Rk E
       let spec := (List.range E).map (weightedMeanAt a Rk)
       s!"code:{fListD fQ code} spec:{if sumF a = 0 then "none" else fListD fQ spec}"
+  | ["rsq", e, ak, src, evt, v] =>
+      let E := pN e
+      let a := pList pQ ak
+      let srcI := pList pN src
+      let evtI := pList pN evt
+      let vals := pList pQ v
+      s!"sparse:{fListD fQ (ratioSparse a srcI evtI vals E)} dense:{fListD fQ (ratioWeighted a (densify a.length E srcI evtI vals) E)}"
   | ["row", sizes, w, y] =>
       let sz := pList pN sizes
       let W := pList pF w
       let Y := pList pF y
       let init := List.replicate W.length (0.0 / 0.0 : Float)
-      fListD fF (calcRow init (List.zip (splitSizes sz W) (splitSizes sz Y)))
+      let gs := List.zip (splitSizes sz W) (splitSizes sz Y)
+      s!"{fListD fF (calcRow init gs)} {fListD fF (calcRowS init gs)} {fListD fF (List.zipWith (· * ·) W Y)}"
   | ["wsob", opa, ns, zb, n, nsel, ak, sv, src, evt, b, r2] =>
       let a := pList pF ak
       let srcI := pList pN src
@@ -93,7 +97,7 @@ def answer (line : String) : String :=
         match vals? with
         | none => "none"
         | some vals =>
-          let Ri := ratioWeighted a (densify a.length nSel srcI evtI vals) nSel
+          let Ri := ratioSparse a srcI evtI vals nSel
           let Xs := Ri.map (LLH.xOfRatio N)
           let sa := (Xs.map (fun X => (LLH.logLambdaI (pF opa) (pF ns) X).abs)).foldl (· + ·) 0
             + (LLH.pureBkgTerm N Xs.length (pF ns)).abs
